@@ -252,7 +252,12 @@ class Model(LPModel):
 
             eye_indices = [item for inner in primal.qmat for item in inner]
             eye_block = dual_lp.linear[eye_indices, :]
-            if len(eye_block.data) + 1 == len(eye_block.indptr):
+            heads = [inner[0] for inner in primal.qmat]
+            if ((np.diff(eye_block.indptr) == 1).all() and
+                    len(set(eye_block.indices)) == len(eye_indices) and
+                    (abs(eye_block.data) == 1).all() and
+                    (dual_lp.linear[heads, :].data == 1).all() and
+                    not (obj is True and dual_lp.const[eye_indices].any())):
                 lin_indices = [ind for ind in range(primal.linear.shape[1])
                                if ind not in eye_indices]
                 linear = dual_lp.linear[lin_indices, :]
